@@ -37,6 +37,7 @@ type StoreOpts struct {
 	FracsPerIter     int    `json:"fracs_per_iter,omitempty"`
 	MaintenanceDelay int    `json:"maintenance_ms,omitempty"`
 	Workers          int    `json:"workers,omitempty"`
+	CacheCleanupMs   int    `json:"cache_cleanup_ms,omitempty"`
 }
 
 type Store struct {
@@ -68,6 +69,9 @@ func (o StoreOpts) config(dir string) *fracmanager.Config {
 	}
 	if o.MaintenanceDelay > 0 {
 		c.MaintenanceDelay = time.Duration(o.MaintenanceDelay) * time.Millisecond
+	}
+	if o.CacheCleanupMs > 0 {
+		c.CacheCleanupDelay = time.Duration(o.CacheCleanupMs) * time.Millisecond
 	}
 	c.Fraction.SkipSortDocs = o.SkipSortDocs
 	c.Fraction.KeepMetaFile = o.KeepMetaFile
@@ -189,15 +193,10 @@ func ParseSeqQL(text string, mapping seq.Mapping) (*parser.ASTNode, error) {
 	return q.Root, nil
 }
 
-type AggSpec struct {
-	Func      string    `json:"func"` // count,sum,min,max,avg,quantile,unique
-	Field     string    `json:"field,omitempty"`
-	GroupBy   string    `json:"group_by,omitempty"`
-	Interval  int64     `json:"interval,omitempty"`
-	Quantiles []float64 `json:"quantiles,omitempty"`
-}
+// AggSpec is the model's aggregation request; the harness converts it for seq-db.
+type AggSpec = model.AggSpec
 
-func (a AggSpec) SeqFunc() seq.AggFunc {
+func AggFuncOf(a AggSpec) seq.AggFunc {
 	switch a.Func {
 	case "count":
 		return seq.AggFuncCount
@@ -219,8 +218,8 @@ func (a AggSpec) SeqFunc() seq.AggFunc {
 
 var searchAll = []parser.Term{{Kind: parser.TermSymbol, Data: "*"}}
 
-func (a AggSpec) ToProcessor() processor.AggQuery {
-	q := processor.AggQuery{Func: a.SeqFunc(), Interval: a.Interval, Quantiles: a.Quantiles}
+func AggToProcessor(a AggSpec) processor.AggQuery {
+	q := processor.AggQuery{Func: AggFuncOf(a), Interval: a.Interval, Quantiles: a.Quantiles}
 	if a.Field != "" {
 		q.Field = &parser.Literal{Field: a.Field, Terms: searchAll}
 	}
@@ -244,7 +243,7 @@ func (s *Store) Params(r *model.SearchReq, text string, aggs []AggSpec) (process
 		Limit: r.Limit, WithTotal: r.WithTotal, Order: order,
 	}
 	for _, a := range aggs {
-		p.AggQ = append(p.AggQ, a.ToProcessor())
+		p.AggQ = append(p.AggQ, AggToProcessor(a))
 	}
 	return p, nil
 }
@@ -300,4 +299,67 @@ func FmtHist(m map[uint64]uint64) string {
 		s += fmt.Sprintf("%d:%d ", k, m[k])
 	}
 	return s + "}"
+}
+
+// CompareAgg compares what seq-db reports for one aggregation (after QPR.Aggregate, i.e.
+// what the proxy would return) with the value computed by the model from the documents.
+func CompareAgg(got seq.AggregationResult, want model.AggRes, s AggSpec) error {
+	exactValue := s.Func == "count" || s.Func == "unique" || s.Func == "min" || s.Func == "max" || s.Func == "quantile"
+	seen := map[model.BucketKey]bool{}
+	for _, b := range got.Buckets {
+		if s.Func == "count" && b.Name == "_not_exists" {
+			// legacy carrier of the not-exists count
+			if int64(b.Value) != want.NotExists {
+				return fmt.Errorf("_not_exists bucket %v, want %d", b.Value, want.NotExists)
+			}
+			continue
+		}
+		k := model.BucketKey{Name: b.Name, MID: uint64(b.MID)}
+		if seen[k] {
+			return fmt.Errorf("bucket %v reported twice", k)
+		}
+		seen[k] = true
+		w := want.Buckets[k]
+		if w == nil {
+			return fmt.Errorf("unexpected bucket %+v value %v", k, b.Value)
+		}
+		tol := 1e-9
+		if exactValue {
+			tol = 0
+		}
+		if !model.CloseEnough(b.Value, w.Value, tol) {
+			return fmt.Errorf("bucket %+v: value %v, want %v", k, b.Value, w.Value)
+		}
+		if s.Func == "quantile" {
+			if len(b.Quantiles) != len(w.Quantiles) {
+				return fmt.Errorf("bucket %+v: %d quantiles, want %d", k, len(b.Quantiles), len(w.Quantiles))
+			}
+			for i := range w.Quantiles {
+				if !model.CloseEnough(b.Quantiles[i], w.Quantiles[i], 0) {
+					return fmt.Errorf("bucket %+v: quantile[%d]=%v, want %v", k, i, b.Quantiles[i], w.Quantiles[i])
+				}
+			}
+		}
+		if want.PerBucketNotExists && b.NotExists != w.NotExists {
+			return fmt.Errorf("bucket %+v: not_exists %d, want %d", k, b.NotExists, w.NotExists)
+		}
+	}
+	for k := range want.Buckets {
+		if !seen[k] {
+			return fmt.Errorf("missing bucket %+v (want value %v)", k, want.Buckets[k].Value)
+		}
+	}
+	if got.NotExists != want.NotExists {
+		return fmt.Errorf("not_exists %d, want %d", got.NotExists, want.NotExists)
+	}
+	return nil
+}
+
+// AggArgs are the arguments the proxy passes to QPR.Aggregate for these specs.
+func AggArgs(specs []AggSpec) []seq.AggregateArgs {
+	args := make([]seq.AggregateArgs, len(specs))
+	for i, s := range specs {
+		args[i] = seq.AggregateArgs{Func: AggFuncOf(s), Quantiles: s.Quantiles, SkipWithoutTimestamp: s.Interval > 0}
+	}
+	return args
 }
